@@ -42,6 +42,8 @@ type run struct {
 	dead      bool
 	n         int
 	seenState map[uint64]int
+	twinOn    bool     // C07 twin execution: this run is execution A
+	twinA     []string // projection after every step of this run
 	seenT     map[uint64]bool
 	seenS     map[uint64]bool
 }
@@ -158,6 +160,12 @@ func absState(gs *pokerface.GameState) uint64 {
 func (r *run) observe(d *delivery) {
 	pre := d.pre
 	i := d.idx
+	if r.twinOn {
+		for len(r.twinA) < i {
+			r.twinA = append(r.twinA, "")
+		}
+		r.twinA = append(r.twinA, projection(d.post))
+	}
 	if d.neighbour {
 		r.res.Steps++
 		r.res.Count("fault.neighbour-hand-started", 1)
